@@ -16,8 +16,10 @@ use std::io::{BufRead, Write};
 use std::time::Duration;
 
 pub fn envs_from(args: &Args) -> Envs {
+    let mut exec = ExecEnv::new(args.gram.clone(), args.shim.clone(), Duration::from_millis(args.cap_ms), args.mem_cap);
+    exec.mask_tid = args.mask_tid;
     Envs {
-        exec: ExecEnv::new(args.gram.clone(), args.shim.clone(), Duration::from_millis(args.cap_ms), args.mem_cap),
+        exec,
         work: args.work.join(&args.run_id),
         step_budget: args.steps,
     }
